@@ -176,6 +176,22 @@ def step (s : St K V) : Op K V → St K V × Res K V
   | .evictedCallback => (s, { out := .cb s.cb })
   | .setEvictedCallback c => ({ s with cb := c }, { out := .unit })
   | .tick δ => ({ s with now := s.now + δ }, { out := .unit })
+  | .getOrComputeSlow k f d δ =>
+    let live := match s.items.get k with | some old => !expired s old | none => false
+    -- the closure tests expiry first; `valueFn()` runs (the clock moves on) only when no live item exists, and
+    -- `c.expiration(d)` is evaluated after it has returned
+    let s1 : St K V := if live then s else { s with now := s.now + δ }
+    let r := s.items.compute k fun o =>
+      match o with
+      | some old => if !expired s old then (old, false) else (⟨f, expiration s1 d⟩, false)
+      | none => (⟨f, expiration s1 d⟩, false)
+    ({ s1 with items := r.1 }, { out := .val r.2.1.v live, fn := if live then [] else [.f] })
+  | .computeSlow k g d δ =>
+    let old := liveOld s (s.items.get k)
+    let s1 : St K V := { s with now := s.now + δ }
+    let r := s.items.compute k fun _ => if (g old).2 then (default, true) else (⟨(g old).1, expiration s1 d⟩, false)
+    if r.2.2 then ({ s1 with items := r.1 }, { out := .val r.2.1.v true, fn := [.g old] })
+    else ({ s1 with items := r.1 }, { out := .val (old.getD default) false, fn := [.g old] })
 
 def run (s : St K V) : List (Op K V) → St K V × List (Res K V)
   | [] => (s, [])
